@@ -1,7 +1,3 @@
 package main
 
-func c08Main()   {}
-func c10Main()   {}
-func c20Main()   {}
-func c25Main()   {}
-func c25Worker() {}
+func c08Main() {}
